@@ -65,6 +65,30 @@ def decode_bounded(raw, fn=None):
     return res, count[0]
 
 
+def decode_in_child(raws, cpu_seconds=20):
+    """decodes the inputs one after the other in a child process with a CPU limit per input; returns the index of the first input
+    whose decoding did not return (None when all did)"""
+    import subprocess
+    from engine.report import REPO
+    code = ("import sys, resource, json\n"
+            "sys.path.insert(0, %r)\n"
+            "from bromelia.base import DiameterMessage\n"
+            "raws = json.load(sys.stdin)\n"
+            "for i, h in enumerate(raws):\n"
+            "    used = resource.getrusage(resource.RUSAGE_SELF).ru_utime\n"
+            "    resource.setrlimit(resource.RLIMIT_CPU, (int(used) + %d + 1, int(used) + %d + 2))\n"
+            "    try:\n"
+            "        DiameterMessage.load(bytes.fromhex(h))\n"
+            "    except BaseException:\n"
+            "        pass\n"
+            "    print(i, flush=True)\n") % (REPO, cpu_seconds, cpu_seconds)
+    p = subprocess.run(["/venv/bin/python", "-c", code], input=json.dumps([r.hex() for r in raws]), capture_output=True, text=True,
+                       timeout=cpu_seconds * 40 + 600)
+    done = [int(x) for x in p.stdout.split() if x.strip().isdigit()]
+    last = done[-1] if done else -1
+    return None if last == len(raws) - 1 else last + 1
+
+
 def judge(rep, raw, res, lines, what, replay):
     kind, val = res
     if kind == "budget":
@@ -198,6 +222,28 @@ def run(rep):
         judge(rep, raw, res_, lines, "random input", {"kind": "bytes", "hex": raw.hex()})
         if len(rep.violations) >= 40:
             break
+    # ---- adversarial text for the data types that are parsed by a grammar (DiameterURI): long labels, repeated separators and a
+    # tail that makes the match fail at the very end -- the decoder must answer within the same bound (no backtracking blow-up)
+    def wrap_avp(code, data, flags=0x40):
+        pad = (-len(data)) % 4
+        avp = code.to_bytes(4, "big") + bytes([flags]) + (8 + len(data)).to_bytes(3, "big") + data + bytes(pad)
+        return bytes([1]) + (20 + len(avp)).to_bytes(3, "big") + bytes([0x80, 0, 1, 60]) + (16777251).to_bytes(4, "big") + bytes(8) + avp
+    hosts = ["a" * 30, "a" * 45, "a" * 64, "a." * 24, "ab-" * 16, "a" * 28 + ".b" * 8, "0" * 40, "a" * 20 + "." + "b" * 20, "-" * 33]
+    tails = ["", ";transport=tls", ":99999", "!", ":", ";protocol=", ";transport=tcp;protocol=diametre", " ", "..", ":3868;transport=sctp;x"]
+    # (a regular expression that backtracks exponentially does not return to the interpreter: these inputs are decoded in a child
+    # process under a CPU limit; the line-counting bound is applied afterwards to the ones that returned)
+    uris = [wrap_avp(292, (scheme + hname + tail).encode()) for scheme in ("aaa://", "aaas://") for hname in hosts for tail in tails]
+    stuck = decode_in_child(uris, cpu_seconds=20)
+    for raw in uris:
+        rep.case(raw)
+    if stuck is not None:
+        rep.violation(f"adversarial DiameterURI: decoding {len(uris[stuck])} bytes did not return within 20 s of CPU time "
+                      f"({uris[stuck][28:].rstrip(bytes(1))!r})", {"kind": "bytes", "hex": uris[stuck].hex(), "child": True})
+    else:
+        for raw in uris:
+            res_, lines = decode_bounded(raw)
+            judge(rep, raw, res_, lines, "adversarial DiameterURI", {"kind": "bytes", "hex": raw.hex()})
+    rep.notes["adversarial_uri_inputs"] = len(uris)
     rep.traces_validated += 0
     # ---- C03b
     if not rep.violations:
